@@ -537,7 +537,8 @@ impl Outcome {
 fn expected_bound(a: i64, b: i64, c: i64, phc: i64) -> i64 {
     // (|a| + b + c) / 1024 s in ns, rounded up; exact in integers.
     let num = (a.abs() + b + c) as i128 * NS;
-    ((num + 1023) / 1024) as i64 + phc
+    // a sum the record's field cannot hold is published as the largest value it can hold (C07)
+    (((num + 1023) / 1024) as i64).saturating_add(phc)
 }
 
 fn random_outcome(rng: &mut Rng, allow_sync: bool) -> Outcome {
@@ -552,7 +553,7 @@ fn random_outcome(rng: &mut Rng, allow_sync: bool) -> Outcome {
         6 => Outcome::PhcFailGrace,
         7 => Outcome::PhcFail,
         8 => Outcome::Sync { a: *rng.pick(&[0i64, 1, -1, 1024, -3000]), b: 1024, c: 512, phc: 0, ivl_log2: 4, age_permille: 10 }, // chronyd's start-up defaults: delay 1 s, dispersion 1 s
-        _ => Outcome::Sync { a: rng.range(-2_000_000, 2_000_000), b: rng.range(0, 2_000_000), c: rng.range(0, 2_000_000), phc: *rng.pick(&[0i64, 0, 0, 5, 30_000]),
+        _ => Outcome::Sync { a: rng.range(-2_000_000, 2_000_000), b: rng.range(0, 2_000_000), c: rng.range(0, 2_000_000), phc: *rng.pick(&[0i64, 0, 0, 0, 0, 0, 5, 5, 30_000, 30_000, 30_000, 1 << 62, i64::MAX, i64::MAX - 5]),
                              ivl_log2: *rng.pick(&[0u8, 4, 4, 6, 10, 12]), age_permille: *rng.pick(&[0u16, 10, 500, 990, 1000]) },
     }
 }
